@@ -264,7 +264,11 @@ func (w *World) TimedRun(s *kernel.Sim) {
 		w.mu.Lock()
 		if !w.goalReached() || p.SrcMode == "fork-later" {
 			if p.SrcMode == "fork-later" && w.dst.RootSize >= 1 && hc("fork-now", 2) == 0 {
-				w.fork(hc("fork-at", int(w.dst.RootSize)))
+				at, size := hc("fork-at", int(w.dst.RootSize)), 0
+				if hc("fork-shrink", 3) == 0 {
+					size = at + 1 + hc("fork-size", int(w.dst.RootSize)-at)
+				}
+				w.fork(at, size)
 			}
 			w.settleRestarts++
 			s.Probe("restart.settle")
